@@ -174,7 +174,7 @@ def work_(t):
       else:
         want = contract(want, Psym, ax)
     P.equal(f'{tag}|compressed application = contraction with c(I - VV\') + V diag(e) V\' (gradient unchanged when flagged)',
-            out, want, split=[f for f in any_flag if R.is_z3(f)])
+            out, want, split=[f for f in any_flag if R.is_z3(f)], poly=True)
     P.reach(f'{tag}|twin: flag clear and non-zero gradient possible', [], [z3.Not(f) for f in any_flag if R.is_z3(f)] + [zl(g.reshape(-1)[0]) != 0])
     rp = dict(kind='P2', d=d, r=r, gshape=list(gshape))
   elif kind == 'P3':
